@@ -71,6 +71,15 @@ def fn_ranges(text):
           continue
       if t[0] == 'id' and t[1] == 'fn' and j + 1 < hi and toks[j + 1][0] == 'id':
         b = first_brace_at_depth0(toks, j + 2)
+        # braces inside a Verus contract (`ensures match r { .. },`) are not the body: the body's
+        # closing brace is never followed by an operator or a comma
+        while b is not None and b < hi:
+          c = match_close(toks, b)
+          nxt = toks[c + 1] if c + 1 < len(toks) else None
+          if nxt is not None and ((nxt[0] == 'punct' and nxt[1] in ',&|=.<>+-*/?') or (nxt[0] == 'id' and nxt[1] == 'as')):
+            b = first_brace_at_depth0(toks, c + 1)
+            continue
+          break
         if b is not None and b < hi:
           c = match_close(toks, b)
           res.append(('::'.join(prefix + [toks[j + 1][1]]), line_of(toks[j][2]), line_of(toks[c][2])))
@@ -194,13 +203,18 @@ def run_unit(unit, repo='/repo', rlimit=None, seed=None, extra_args=(), timeout=
     f = fn_at(line)
     # for pre/postconditions the labelled clause is the span with a label 'failed this ...'
     lab_line = line
+    lab_end = prim[0]['line_end'] if prim else line
     for s in spans:
-      if s.get('label') and 'failed' in s['label']:
-        lab_line = s['line_start']
+      if s.get('label') and 'failed' in s['label'] and os.path.basename(s.get('file_name', '')) == os.path.basename(gen):
+        lab_line, lab_end = s['line_start'], s['line_end']
     # function in which the failure occurs = the one containing any span that is inside an fn body
     fnname = f[0] if f else '?'
     label = None
-    m = LABEL_RE.search(lines[lab_line - 1]) if 0 < lab_line <= len(lines) else None
+    m = None
+    for ll in range(lab_line, min(lab_end, len(lines)) + 1):
+      m = LABEL_RE.search(lines[ll - 1]) if 0 < ll <= len(lines) else None
+      if m:
+        break
     if m:
       label = m.group(1)
       lf = fn_at(lab_line)
